@@ -65,6 +65,24 @@ def dumps_deep(req):
                 sys.setrecursionlimit(_limit_users[1])
 
 
+# Lean's `Char` has no surrogate code points: a lone surrogate in a request (an undecodable byte of a file name, `os.fsdecode` writes U+DC80..U+DCFF) would
+# silently become U+FFFD inside the driver.  Such code points travel as the private-use characters U+F780..U+F7FF and are mapped back in the answers; the model
+# treats a file name as an opaque string, so the renaming is invisible to it.  (Only escapes that are not the low half of a surrogate pair are renamed.)
+_LONE_LOW = re.compile(r"(?<!\\ud[89ab][0-9a-f]{2})\\udc([89a-f][0-9a-f])")
+_PUA_BACK = {0xF700 + i: 0xDC00 + i for i in range(0x80, 0x100)}
+
+
+def _enc_req(req):
+    return _LONE_LOW.sub(r"\\uf7\1", dumps_deep(req))
+
+
+_PUA_RE = re.compile("[\uf780-\uf7ff]")
+
+
+def _dec_line(line):
+    return json.loads(line.translate(_PUA_BACK)) if _PUA_RE.search(line) else json.loads(line)
+
+
 class Driver:
     def __init__(self):
         if not os.path.exists(DRIVER):
@@ -73,13 +91,13 @@ class Driver:
         self.n = 0
 
     def ask(self, req):
-        self.p.stdin.write(dumps_deep(req) + "\n")
+        self.p.stdin.write(_enc_req(req) + "\n")
         self.p.stdin.flush()
         line = self.p.stdout.readline()
         if not line:
             raise RuntimeError("driver died on request: " + dumps_deep(req)[:500])
         self.n += 1
-        return json.loads(line)
+        return _dec_line(line)
 
     def ask_many(self, reqs):
         """Pipeline many requests (writer thread avoids pipe deadlock).  Large batches of stateless `scan` requests are split over a pool of
@@ -122,7 +140,7 @@ class Driver:
         def w():
             try:
                 for r in reqs:
-                    self.p.stdin.write(dumps_deep(r) + "\n")
+                    self.p.stdin.write(_enc_req(r) + "\n")
                 self.p.stdin.flush()
             except BaseException as e:      # noqa: never leave the reader waiting for answers that will not come
                 werr.append(e)
@@ -138,7 +156,7 @@ class Driver:
             if not line:
                 t.join()
                 raise RuntimeError("driver died" + (" (request could not be written: %r)" % werr[0] if werr else ""))
-            out.append(json.loads(line))
+            out.append(_dec_line(line))
         t.join()
         self.n += len(reqs)
         return out
